@@ -47,7 +47,7 @@ JSON_LINES = [
          v=['{"x":"3","n":{"y":"a","k":[1,{"z":2}]},"f":true}', '{"n":{"y":"a"},"f":true,"x":"3","arr":["NOT","x"]}']),
     dict(t='J4', cls='malformed', jf=None,
          v=['{"x":"1","y":', '{"x":"1" "y":"a"}', '{"x":"1","y":"a"', '{"x":"1",}', '{x:1}']),
-    dict(t='J5', cls='nonobj', jf=None, v=['[1,"NEEDLE"]', '"NEEDLE x"', '42', 'null', 'true']),
+    dict(t='J5', cls='nonobj', jf=None, v=['[1,"NEEDLE"]', '"NEEDLE x"', '42', 'null', '[{"x":"1"}]']),
     dict(t='J6', cls='logfmt', jf=None, v=['x=1 y="a b" NEEDLE=1', 'x=1 y="{\\"x\\":\\"1\\"}"']),
     dict(t='J7', cls='flat', jf={'y': 'a'}, v=['{"y":"a"}', '{"y":"a","k":[]}']),
     dict(t='J8', cls='flat', jf={'x': 'abc', 'y': 'b'}, v=['{"x":"abc","y":"b"}']),
@@ -210,6 +210,8 @@ def line_table(seed):
     for v in sorted(values):            # lines produced by line_format are label values
         if v in rows:
             raise vlib.Infra('pool token clashes with a value: ' + v)
+        if v in conc.values():
+            raise vlib.Infra('a pool line equals a label value: ' + v)
         conc[v] = v
         rows[v] = {'jok': False, 'jf': None, 'lok': False, 'lf': None, 'has': NEEDLE in v, 'len': len(v.encode())}
     return rows, conc, sorted(values)
@@ -257,6 +259,257 @@ def gen_module(seed):
     out.append('====')
     return '\n'.join(out) + '\n', conc
 
+
+
+# ---------------------------------------------------------------------------------------------------------------
+# cases for the export: exhaustive small ones and seeded larger ones
+# ---------------------------------------------------------------------------------------------------------------
+def cuts(n, maxmsgs):
+    """all sequences of message sizes (zeros allowed) of length <= maxmsgs with sum n"""
+    out = []
+
+    def rec(prefix, left, k):
+        if k == 0:
+            if left == 0:
+                out.append(list(prefix))
+            return
+        for x in range(left + 1):
+            rec(prefix + [x], left - x, k - 1)
+    for k in range(0 if n == 0 else 1, maxmsgs + 1):
+        rec([], n, k)
+    return out
+
+
+def rand_cut(rnd, n):
+    cut = []
+    left = n
+    while left > 0:
+        if rnd.random() < 0.2:
+            cut.append(0)
+            continue
+        k = rnd.randint(1, left)
+        cut.append(k)
+        left -= k
+    if rnd.random() < 0.25:
+        cut.append(0)
+    return cut
+
+
+def is_metric(p):
+    return p['agg']['fn'] != ''
+
+
+def gen_cases(tier, seed):
+    rnd = random.Random(seed * 104729 + 7)
+    cases = []
+
+    def add(pi, es, cut, eof, lim, fwd):
+        cases.append({'id': 'c%05d' % len(cases), 'pl': pi + 1, 'es': es, 'cut': cut, 'eof': eof, 'lim': lim, 'fwd': fwd})
+
+    span = DUR * WINDOWS
+    for pi, p in enumerate(PIPELINES):
+        lims = [0] if is_metric(p) else [0, 1, 2, 7]
+        series = [SERIES[i - 1] for i in p['series']]
+        # (1) every single-entry case over the whole sampling pool, every partition into <= 2 messages
+        for t in p['spool']:
+            sr = rnd.choice(series)
+            for cut in cuts(1, 2):
+                eof = rnd.random() < 0.7
+                add(pi, [{'lb': sr, 'ts': rnd.randrange(span), 'ln': t}], cut, eof, rnd.choice(lims), True)
+        # the empty stream
+        add(pi, [], [], True, 0, True)
+        add(pi, [], [0], False, rnd.choice(lims), True)
+        # (2) seeded larger cases
+        nrand = (14 if tier == 'quick' else 120)
+        for _ in range(nrand):
+            n = rnd.choice([2, 2, 3, 3, 4, 5] if tier == 'quick' else [2, 3, 3, 4, 4, 5, 6, 7])
+            fwd = rnd.random() < 0.5
+            tss = sorted(rnd.sample(range(span), n), reverse=not fwd)
+            # mostly decodable lines, so that cases exercise the stages and not only the abort
+            pool = p['spool']
+            okpool = [t for t in pool if (t in PJ_OK or (t.startswith('F') and t != 'F4'))] or pool
+            usepool = okpool if rnd.random() < 0.7 else pool
+            es = [{'lb': rnd.choice(series), 'ts': tss[i], 'ln': rnd.choice(usepool)} for i in range(n)]
+            add(pi, es, rand_cut(rnd, n), rnd.random() < 0.75, rnd.choice(lims), fwd)
+    return cases
+
+
+EXPORT_CFG = 'SPECIFICATION Spec\nCHECK_DEADLOCK FALSE\n'
+
+THM_CFG = '''SPECIFICATION Spec
+CONSTANTS
+  MaxN = %(maxn)d
+  MaxMsgs = %(maxmsgs)d
+  PlFrom = %(plfrom)d
+  PlTo = %(plto)d
+INVARIANTS Thm_BatchingIndependent Thm_LimitMeaning Thm_SeriesIdentity
+CHECK_DEADLOCK FALSE
+'''
+
+
+def tlc_thm(gen_path, maxn, maxmsgs, timeout, workers):
+    sd = vlib.scratch('c09thm')
+    try:
+        cfgp = os.path.join(sd, 'MC_InProc_run.cfg')
+        open(cfgp, 'w').write(THM_CFG % {'maxn': maxn, 'maxmsgs': maxmsgs, 'plfrom': 1, 'plto': len(PIPELINES)})
+        res = vlib.tlc(SPECDIR, 'MC_InProc.tla', 'MC_InProc_run.cfg', workers=workers, timeout=timeout, copy_extra=[cfgp, gen_path], coverage=True)
+        try:
+            if res['violated']:
+                raise vlib.Infra('C09 theorem violated on the specification itself (%s): the spec is wrong, not the code\n%s'
+                                 % (res['violated'], res['out'][-3000:]))
+            if not res.get('finished') or 'No error has been found' not in res['out']:
+                raise vlib.Infra('TLC did not finish MC_InProc:\n' + res['out'][-2000:])
+            zero = [a for a in vlib.coverage_zero_actions(res['out']) if a in ('PickEntries', 'PickTransport', 'Init')]
+            if zero:
+                raise vlib.Infra('vacuous: actions never taken: %s' % zero)
+            return {'states': res.get('distinct', 0), 'generated': res.get('generated', 0), 'wall_s': round(res['wall'], 1)}
+        finally:
+            vlib.tlc_cleanup(res)
+    finally:
+        shutil.rmtree(sd, ignore_errors=True)
+
+
+def tlc_export(gen_path, cases, timeout):
+    """evaluate the spec on the cases; returns list of outputs in case order"""
+    sd = vlib.scratch('c09exp')
+    try:
+        cp = os.path.join(sd, 'c09_cases.ndjson')
+        with open(cp, 'w') as f:
+            for c in cases:
+                f.write(json.dumps(c) + '\n')
+        cfgp = os.path.join(sd, 'MC_InProcExport.cfg')
+        open(cfgp, 'w').write(EXPORT_CFG.replace('\\n', '\n'))
+        res = vlib.tlc(SPECDIR, 'MC_InProcExport.tla', 'MC_InProcExport.cfg', workers=1, timeout=timeout, copy_extra=[cfgp, gen_path, cp])
+        try:
+            op = os.path.join(res['scratch'], 'c09_out.json')
+            if not os.path.exists(op):
+                raise vlib.Infra('TLC export produced no output:\n' + res['out'][-3000:])
+            outs = json.load(open(op))
+            if len(outs) != len(cases):
+                raise vlib.Infra('TLC export: %d outputs for %d cases' % (len(outs), len(cases)))
+            return outs, res['wall']
+        finally:
+            vlib.tlc_cleanup(res)
+    finally:
+        shutil.rmtree(sd, ignore_errors=True)
+
+
+def export_sharded(gen_path, cases, shards, timeout):
+    import threading
+    outs = [None] * shards
+    errs = []
+    walls = []
+    per = (len(cases) + shards - 1) // shards
+
+    def work(k):
+        try:
+            part = cases[k * per:(k + 1) * per]
+            if part:
+                o, w = tlc_export(gen_path, part, timeout)
+                outs[k] = o
+                walls.append(w)
+            else:
+                outs[k] = []
+        except BaseException as e:  # noqa
+            errs.append(e)
+    ts = [threading.Thread(target=work, args=(k,)) for k in range(shards)]
+    for t in ts:
+        t.start()
+    for t in ts:
+        t.join()
+    if errs:
+        raise errs[0]
+    return [o for part in outs for o in part], max(walls or [0])
+
+
+def obs_json(o):
+    """TLC's result record -> plain JSON for the driver (labels without the absent ones)"""
+    return {'k': o['k'], 'streams': [{'lb': {k: v for k, v in st['lb'].items() if v != ''}, 'vals': st['vals']} for st in o['streams']]}
+
+
+def chain_casefile(cases, outs, conc, seed):
+    cs = []
+    for c, o in zip(cases, outs):
+        if c['id'] != o['id']:
+            raise vlib.Infra('export out of order: %s vs %s' % (c['id'], o['id']))
+        p = PIPELINES[c['pl'] - 1]
+        cs.append({'id': c['id'], 'pid': p['id'], 'q': p['q'], 'metric': is_metric(p), 'es': c['es'], 'cut': c['cut'], 'eof': c['eof'],
+                   'lim': c['lim'], 'fwd': c['fwd'], 'exp': obs_json(o['exp']), 'pred': obs_json(o['pred']), 'agree': o['agree'],
+                   'causes': sorted(o['causes'])})
+    return {'conc': conc, 'dur_s': DUR, 'windows': WINDOWS, 'seed': seed, 'cases': cs}
+
+
+# what each as-coded switch of the specification stands for (for the violation messages)
+QUIRK_TEXT = {
+    'limit0': 'LimitPlanner (planner_limit.go:17) forwards nothing when ctx.Limit is 0; on the SQL side (planner_main_limit.go:18) 0 means no limit, '
+              'and query_range without a limit parameter passes 0',
+    'parse_abort': 'a line the json/logfmt parser cannot decode (malformed, non-object) terminates the whole stream with an error entry '
+                   '(planner_parser.go:62-66, planner_generic.go:36-40); the SQL engine keeps such lines',
+    'marker_eval': 'label filter / comparison evaluate the error entry (nil labels, value 0) like data and drop it: the error is swallowed and the '
+                   'truncated result is returned as a success',
+    'lfmt_nil': 'label_format z="const" assigns into the nil label map of the end-marker entry: panic; WrapProcess defers '
+                'func(){TamePanic(out)} whose recover() is not in the deferred frame, so the reader process dies',
+    'lfmt_src': 'label_format z=x with x absent leaves z untouched (planner_label_format.go:37); the SQL engine assigns the empty value',
+    'fp_concat': 'hash.go fingerprint hashes k+v without a separator: label sets with equal concatenations are one series',
+    'fp_stale': 'drop recomputes the fingerprint only when it removed something and label_format never does: equal label sets end up with '
+                'different fingerprints (stored series fingerprint vs hash.go), one series is split',
+    'min_is_max': 'min_over_time uses the comparison of max_over_time (planner_unwrap_agg.go:39)',
+    'first_nonzero': 'first_over_time takes the first NON-ZERO value in arrival order (planner_unwrap_agg.go:44), not the value with the smallest timestamp',
+    'last_arrival': 'last_over_time takes the last value in arrival order (planner_unwrap_agg.go:49); entries arrive newest first unless direction=forward',
+    'vec_nogroup': 'a vector aggregation without by/without gets no grouping processor (planner.go planByWithout): series are not merged',
+}
+
+
+def chain_violations(cf, res):
+    """one violation per structural signature, with the smallest failing case as the replay"""
+    byid = {c['id']: c for c in cf['cases']}
+    groups = {}
+    for m in res.get('mismatches') or []:
+        c = byid[m['id']]
+        kinds = '+'.join(m.get('diff_kinds') or [m.get('kind', '?')])
+        if c['causes'] and m.get('match_pred'):
+            sig = 'C09/chain/as-transcribed/' + '+'.join(c['causes']) + '/' + kinds
+        elif c['causes']:
+            sig = 'C09/chain/near-transcribed/' + '+'.join(c['causes']) + '/' + c['pid'] + '/' + kinds
+        else:
+            sig = 'C09/chain/unexplained/' + c['pid'] + '/' + kinds
+        groups.setdefault(sig, []).append((len(c['es']), m, c))
+    out = []
+    for sig, lst in sorted(groups.items()):
+        lst.sort(key=lambda x: (x[0], x[2]['id']))
+        n, m, c = lst[0]
+        why = '; '.join(QUIRK_TEXT.get(q, q) for q in c['causes']) or 'no transcribed deviation explains it'
+        ups = [{'labels': e['lb'], 'ts_s': e['ts'], 'line': cf['conc'].get(e['ln'], e['ln'])} for e in c['es']]
+        replay = vlib.save_replay('C09', re.sub(r'[^A-Za-z0-9_+-]+', '_', sig)[:150],
+                                  {'signature': sig, 'query': c['q'], 'limit': c['lim'], 'forward': c['fwd'], 'eof_marker': c['eof'],
+                                   'partition': c['cut'], 'upstream_entries': ups, 'expected': c['exp'], 'predicted_as_coded': c['pred'],
+                                   'observed': m.get('obs'), 'observed_other_partitions': m.get('part_obs'), 'other_partitions': m.get('part_cuts'),
+                                   'plan': m.get('plan'), 'stderr': m.get('stderr'), 'causes': c['causes'], 'cases_with_this_signature': len(lst),
+                                   'replay_cmd': 'c09 chain -cases <file with this case>', 'case': c})
+        obs = m.get('obs') or {}
+        out.append({'property': 'C09', 'signature': sig,
+                    'msg': '%s (limit=%d, %d upstream entries in messages %s%s): expected %s, the real chain gave %s%s [%d cases] - %s'
+                           % (c['q'], c['lim'], len(c['es']), c['cut'], ' + end marker' if c['eof'] else '', short_obs(c['exp']),
+                              short_obs(obs), ' (other partitions give other results)' if m.get('part_obs') else '', len(lst), why),
+                    'replay': replay})
+    return out
+
+
+def short_obs(o):
+    if not o:
+        return '?'
+    if o.get('k') != 'ok':
+        return o.get('k', '?') + ((': ' + o['err'][:80]) if o.get('err') else '')
+    ss = []
+    for st in o.get('streams') or []:
+        lb = st.get('lb', st.get('labels', {}))
+        if 'vals' in st:
+            vals = ['%s@%s' % ('/'.join(str(x) for x in v[1:]), v[0]) for v in st['vals']]
+        else:
+            vs = st.get('lines') or st.get('values') or []
+            vals = ['%s@%s' % (vs[i], st['ts'][i]) for i in range(len(vs))]
+        ss.append('{%s}[%s]' % (','.join('%s=%s' % kv for kv in sorted(lb.items())), ' '.join(vals)))
+    return 'ok ' + ' '.join(sorted(ss)) if ss else 'ok (empty)'
 
 if __name__ == '__main__':
     import sys
